@@ -120,3 +120,24 @@ check("C17", "model_checking",
            "deviation bound, is executed on the real parsers; records must be exactly those encoded (none lost, duplicated, "
            "reordered), undecodable or trailing data must surface as an error, transport errors must not be swallowed, no panic.",
       note="Bounds: bodies <= 10 (14) bytes (17 for 8-byte records), deviations <= 2 (n<=6), 1 (n<=10), 0 beyond.")
+
+check("C18", "model_checking",
+      "One real query Processor (three views: coordinator/leader shard, follower helper/leader shard, non-leader shard) wired to "
+      "in-memory MPC and shard networks with scripted peers; BFS over histories of 13 request kinds (create start/finish with "
+      "accept/reject, prepare helper/shard, inputs, injected task + task returns ok/err, status with every peer-shard answer, "
+      "shard status with every claimed status, complete with shard accept/reject, poll parked completion, kill) to depth 9 (12); "
+      "state rebuilt by replaying the history on a fresh Processor; canonical key = reference-model state; every call's result "
+      "class and the stored status are compared with the model. states = distinct model states reached; transitions = calls replayed.",
+      [{"name": "lifecycle", "config": "A", "test": "query::processor::verif::c18::run",
+        "require": {"any": {"states": 30}}}],
+      assumptions=["kill is not issued while a create request is parked at the peers, and a parked completion request is abandoned "
+                   "together with a kill (scope restriction, see DESIGN.md C18)",
+                   "the real executor started by receive_inputs never finishes against the scripted peers; finished tasks are "
+                   "modelled by an injected RunningQuery as in the repository's unit tests"],
+      exhaustive=True, engine="E4 bfs",
+      technique="explicit-state breadth-first search over API-call histories of the real Processor with a lock-step reference "
+                "model (state re-derived by replay, dedup on the model state)",
+      text="All request histories up to the depth bound are executed against the real Processor and compared call by call with a "
+           "reference lifecycle model: forward-only states, invalid requests answered with an error and leaving the state "
+           "unchanged, failed creation leaving no trace, results handed out once, min-over-shards status, no panic.",
+      note="Depth 9 (quick) / 12 (thorough); one query id (QueryId is a unit type); 2 shards.")
